@@ -40,6 +40,15 @@ Proof.
   - unfold deserialize. rewrite <- (app_nil_r (serialize Spec.layout h)). apply roundtrip_any_layout. exact Hok.
   - intros r Hin Hk. apply apply_fields_get; [apply C02_struct_fields|assumption|assumption].
 Qed.
+(* corollary: headers that differ in a field never share their 127 bytes *)
+Theorem C02_serialize_injective : forall h1 h2, header_ok Spec.layout h1 -> header_ok Spec.layout h2 ->
+  serialize Generated.ser_layout h1 = serialize Generated.ser_layout h2 ->
+  forall r, In r Spec.layout -> (forall m, r_kind r <> KMagic m) -> h1 (r_fld r) = h2 (r_fld r).
+Proof.
+  intros h1 h2 H1 H2 E r Hin Hk.
+  destruct (C02_roundtrip h1 H1) as (a & Da & Fa). destruct (C02_roundtrip h2 H2) as (b & Db & Fb).
+  rewrite E in Da. rewrite Da in Db. injection Db as Eab. rewrite <- (Fa r Hin Hk), <- (Fb r Hin Hk), Eab. reflexivity.
+Qed.
 (* ... and for ANY table the reader undoes the writer, which is why round trips cannot see consistent edits *)
 Theorem C02_roundtrip_any_layout : forall h L rest h0, header_ok L h ->
   deserialize_f L (serialize L h ++ rest) h0 = inl (apply_fields h L h0).
@@ -126,3 +135,4 @@ Print Assumptions C02_roundtrip_any_layout.
 Print Assumptions C02_bytes_roundtrip.
 Print Assumptions C02_reject_magic.
 Print Assumptions C02_reject_version.
+Print Assumptions C02_serialize_injective.
